@@ -59,10 +59,11 @@ type DashObs struct {
 	Obs
 	Status   int
 	Body     string
-	Stored   bool     // the insert into shovel.integrations was executed
-	AppNames []string // `set application_name ...` texts received by the database
-	AllSQL   []string // every text the database received during the call and the step after it
-	Params   []string // every statement parameter the database received
+	Stored   bool                   // the insert into shovel.integrations was executed
+	AppNames []string               // `set application_name ...` texts received by the database
+	AllSQL   []string               // every text the database received during the call and the step after it
+	Params   []string               // every statement parameter the database received
+	Loaded   []shconfig.Integration // what config.Integrations returned afterwards
 	Hung     bool
 }
 
@@ -130,6 +131,7 @@ func (e *DashEnv) Run(igDoc string, srcs []shconfig.Source) (coq string, o DashO
 		o.Err = "config.Integrations: " + err.Error()
 		return
 	}
+	o.Loaded = loaded
 	o.Panic = catch(func() { driveTasks(&o.Obs, srcs, loaded) })
 	// one Converge step of the stored integration (the tasks the manager started ended at once
 	// at the planted cursor): the cursor statements, latestDependency with the stored
